@@ -171,6 +171,21 @@ def reportOne (r : H × List Obs) (k : Key) : H × List Obs :=
       ((taskFire h k c).1, r.2 ++ (taskFire h k c).2)       -- `go prepareConnectionInitation` at once
     else (h.set k { h.get k with tasks := (h.get k).tasks ++ [c] }, r.2)
 
+/-- trusted := false, pairing state none, notify the application (tail of unregister and cancel) -/
+def untrust (h : H) (k : Key) : H :=
+  ((h.set k { h.get k with trusted := false }).setDetailState k csNone).notify k false
+
+/-- CancelPairingWithSKI's dealing with the registered connection: AbortPendingHandshake takes a
+    connection in a hello-listen state to the abort-done state (Conn.abort); any other handshake that has
+    not ended is closed -/
+def cancelConn (h : H) (k : Key) : H × List Obs :=
+  match (h.get k).conn with
+  | some c =>
+    (h.set k { h.get k with conn := some { c with st := if c.st = 8 || c.st = 11 then 15 else c.st } },
+     [Obs.abort c.id, .query c.id] ++
+       (if handshakeEnded (if c.st = 8 || c.st = 11 then 15 else c.st) then [] else [Obs.close c.id false 4452]))
+  | none => (h, [])
+
 /-- the registered connection's own state -/
 def setConnSt (h : H) (k : Key) (st : Nat) : H :=
   match (h.get k).conn with
@@ -217,32 +232,14 @@ def step (h : H) : Ev → H × List Obs
         let h := h.setDetailState k csQueued
         (h.notify k false, [.mdnsRequest])
   | .unregister s =>
-    let k := normalize s
-    let h := h.touch k
-    let p := h.get k
-    let h := h.set k { p with trusted := false, counter := none }
-    let h := h.setDetailState k csNone
-    let h := h.notify k false
-    (h, match p.conn with | some c => [.close c.id true 4500] | none => [])
+    (untrust ((h.touch (normalize s)).set (normalize s) { (h.touch (normalize s)).get (normalize s) with counter := none }) (normalize s),
+     match (h.get (normalize s)).conn with | some c => [.close c.id true 4500] | none => [])
   | .disconnect s =>
     let k := normalize s
     (h, match (h.get k).conn with | some c => [.close c.id true 0] | none => [])
   | .cancel s =>
-    let k := normalize s
-    let h := h.touch k
-    let p := h.get k
-    let h := h.set k { p with counter := none }
-    -- AbortPendingHandshake takes a connection in a hello-listen state to the abort-done state
-    -- (Conn.abort); any other handshake that has not ended is closed
-    let (h, obs) := match p.conn with
-      | some c =>
-        let st' := if c.st = 8 || c.st = 11 then 15 else c.st
-        let h := h.set k { h.get k with conn := some { c with st := st' } }
-        (h, [Obs.abort c.id, .query c.id] ++ (if handshakeEnded st' then [] else [Obs.close c.id false 4452]))
-      | none => (h, [])
-    let h := h.set k { h.get k with trusted := false }
-    let h := h.setDetailState k csNone
-    (h.notify k false, obs)
+    (untrust (cancelConn ((h.touch (normalize s)).set (normalize s) { (h.touch (normalize s)).get (normalize s) with counter := none }) (normalize s)).1 (normalize s),
+     (cancelConn ((h.touch (normalize s)).set (normalize s) { (h.touch (normalize s)).get (normalize s) with counter := none }) (normalize s)).2)
   | .pairingDetail s =>
     let k := normalize s
     let h := h.touch k
